@@ -235,7 +235,9 @@ class Prop(object):
                     r.transitions += 1
                     if got != rkeys.secret_ints(raw):
                         probs.append('reference recovers different secret integers for %s' % raw['name'])
-                    if info['usage'] != 254 or info['cipher'] != R.CIPHER_ID[cipher] or info['s2k']['spec'] != 3 or info['s2k']['hash'] != HASH_ID[hname] or info['s2k']['coded'] != coded:
+                    # the requested cipher and S2K hash must be the ones on the wire; usage octet and specifier form are PGPy's choice among the protected forms
+                    if info['usage'] not in (254, 255) or info['cipher'] != R.CIPHER_ID[cipher] or info['s2k']['spec'] not in (1, 3) or info['s2k']['hash'] != HASH_ID[hname] or \
+                            (info['s2k']['spec'] == 3 and info['s2k']['coded'] != coded):
                         probs.append('protection parameters on the wire %r differ from the requested ones' % (info,))
                     try:
                         renc.unprotect_secret(body, (pw + 'x').encode('utf-8'))
